@@ -8,7 +8,8 @@ RULE = ("random sequences (1..12) of the ten API operations (incl. reboot, pull 
         "arg1=0, one NUL), (local, remote) on every later packet, OKAY only for an un-acked device WRTE, no WRTE before the previous one was acknowledged, "
         "nothing after the host's CLSE, and for calls that return normally: device CLSE seen, exactly one host CLSE, every delivered WRTE acked. "
         "non-trivial = at least one stream opened; distinct = distinct (impl, operation sequence, remote regime, maxdata) signatures")
-ASSUMPTIONS = ["stream closure is demanded only of calls that return normally (push on FAIL and timed-out commands abandon their stream by design)",
+ASSUMPTIONS = ["the negotiated maxdata is 0 or at least 4096 (the protocol's minimum) and every single FileSync request fits into it (a device path longer than maxdata is not driven)",
+               "stream closure is demanded only of calls that return normally (push on FAIL and timed-out commands abandon their stream by design)",
                "the simulator answers a host CLSE on a live stream with one CLSE and stalls (stop-and-wait) until it is owed OKAY arrives"]
 SHARDS = {"quick": 8, "thorough": 16}
 TIME_BUDGET = {"quick": 300, "thorough": 1800}
